@@ -42,6 +42,7 @@ def cases(draw):
         "delays": draw(st.lists(st.sampled_from([0, 0, 3, 8, 15, 25]), min_size=3, max_size=7)),
         "chunk": draw(st.sampled_from([None, 1, 1, 2, 3, 4])),
         "seed": draw(st.integers(0, 5000)),
+        "repeat": draw(st.sampled_from([0, 0, 0, 1, 2])),  # how many items of the request are named twice
     }
 
 
@@ -81,9 +82,10 @@ def check_case(case, ctx):
     record = {}
     before = observe.snapshot(model)
 
-    def perm(items):
+    def perm(items, repeat=0):
         order = [i for i in case["perm"] if i < len(items)]
-        return [items[i] for i in order]
+        out = [items[i] for i in order]
+        return out + out[:repeat]  # a request may name an item more than once (e.g. two overlapping lists)
 
     # ---------------- sampling ----------------------------------------------------------------
     if fn == "optgp":
@@ -113,25 +115,28 @@ def check_case(case, ctx):
     if fn in ("fva", "blocked"):
         module, task = variability, "_fva_step"
         if fn == "fva":
-            items = perm(rids)
+            items = perm(rids, case.get("repeat", 0))
+            if case.get("repeat"):
+                classes.append("repeated-item")
             ref = fa.flux_variability_analysis(model, reaction_list=rids, processes=1)
             with sched.controlled(module, task, case["delays"], case["chunk"], record):
                 got = fa.flux_variability_analysis(model, reaction_list=items, processes=case["processes"])
             if list(got.index) != items:
                 _v("fva:index", f"index {list(got.index)} but requested {items}")
             _, exact, _ = oracles.fva(spec, rids)
-            for rid in items:
+            for pos, rid in enumerate(items):
                 alone = fa.flux_variability_analysis(model, reaction_list=[rid], processes=1)
                 for col, k in (("minimum", 0), ("maximum", 1)):
-                    g, r_, a_, e_ = float(got.at[rid, col]), float(ref.at[rid, col]), float(alone.at[rid, col]), exact[rid][k]
+                    g, r_, a_, e_ = float(got[col].iloc[pos]), float(ref.at[rid, col]), float(alone.at[rid, col]), exact[rid][k]
                     if not close(g, r_) or not close(g, a_) or (e_ is not None and not close(g, float(e_))):
                         _v("fva:schedule-dependent", f"{rid} {col}: {g!r} under the schedule (processes={case['processes']}, chunk={case['chunk']}), "
                                                     f"{r_!r} serial, {a_!r} alone, exact {e_}")
-            varied = len({(round(float(got.at[r, 'minimum']), 6), round(float(got.at[r, 'maximum']), 6)) for r in items}) > 1
+            varied = len({(round(float(a), 6), round(float(b), 6)) for a, b in zip(got["minimum"], got["maximum"])}) > 1
         else:
             ref = sorted(fa.find_blocked_reactions(model, processes=1))
             with sched.controlled(module, task, case["delays"], case["chunk"], record):
-                got = sorted(fa.find_blocked_reactions(model, reaction_list=[model.reactions.get_by_id(r) for r in perm(rids)], processes=case["processes"]))
+                got = sorted(set(fa.find_blocked_reactions(model, reaction_list=[model.reactions.get_by_id(r) for r in perm(rids, case.get("repeat", 0))],
+                                                           processes=case["processes"])))
             if got != ref:
                 _v("blocked:schedule-dependent", f"blocked {got} under the schedule vs {ref} serial")
             varied = 0 < len(got) < len(rids)
